@@ -329,10 +329,159 @@ def runOp (op : String) (fields : List String) (impl : String) : Option Verdict 
     pure { model := fmtParse (parse s), oracle := ParseOracle.clauses s impl true }
   | _, _ => none
 
+/-! ### SQLDUMP: the reference SQL reading in machine-readable form (for tools/sqlite_crosscheck.py)
+
+`SQLDUMP sqlhex dbseed | -` answers one line `DUMP {json}` with the database `Rel.mkDB dbseed`,
+the statement as `Sql.lex .standard` / `parseStatement` read it, every SELECT of the statement
+(the CTEs in order, then the body) evaluated by `Sql.evalSelect`, and the table
+`Sql.evalStatement` returns.  Byte strings are lower-case hex inside JSON strings; values are
+`null`, an integer, `true` / `false`, `"s:<hex>"` (string) or `"t:<hex>"` (symbolic term of an
+uninterpreted application).  Per SELECT it also says: the number of rows before LIMIT and the
+limit value; whether there is an ORDER BY and whether its keys order the rows totally (every
+two rows that differ as output rows have different keys).  Unreadable SQL: `{"readable":false}`. -/
+namespace SqlDump
+open Pql Sql
+
+def jStr (s : String) : String := "\"" ++ s ++ "\""
+def jHex (b : Bytes) : String := jStr (Bytes.toHex b)
+def jBool (b : Bool) : String := if b then "true" else "false"
+def jArr (xs : List String) : String := "[" ++ ",".intercalate xs ++ "]"
+def jObj (kvs : List (String × String)) : String :=
+  "{" ++ ",".intercalate (kvs.map fun (k, v) => jStr k ++ ":" ++ v) ++ "}"
+def jOpt {α} (f : α → String) : Option α → String
+  | some a => f a
+  | none => "null"
+
+def jVal : Val → String
+  | .null => "null"
+  | .bool b => jBool b
+  | .int n => toString n
+  | .str s => jStr ("s:" ++ Bytes.toHex s)
+  | .term t => jStr ("t:" ++ Bytes.toHex t)
+
+def jTable (t : Table) : List (String × String) :=
+  [("cols", jArr (t.cols.map jHex)), ("rows", jArr (t.rows.map fun r => jArr (r.map jVal)))]
+
+mutual
+def jExpr : SExpr → String
+  | .col parts => jObj [("k", jStr "col"), ("parts", jArr (parts.map jHex))]
+  | .str v => jObj [("k", jStr "str"), ("v", jHex v)]
+  | .num t => jObj [("k", jStr "num"), ("v", jHex t)]
+  | .param t => jObj [("k", jStr "param"), ("v", jHex t)]
+  | .const w => jObj [("k", jStr "const"), ("v", jStr w)]
+  | .call fn star args filter =>
+    jObj [("k", jStr "call"), ("fn", jHex fn), ("star", jBool star), ("args", jArr (jExprs args)), ("filter", jExpr filter)]
+  | .case_ c t e => jObj [("k", jStr "case"), ("c", jExpr c), ("t", jExpr t), ("e", jExpr e)]
+  | .neg x => jObj [("k", jStr "neg"), ("x", jExpr x)]
+  | .pos x => jObj [("k", jStr "pos"), ("x", jExpr x)]
+  | .not_ x => jObj [("k", jStr "not"), ("x", jExpr x)]
+  | .bin op x y => jObj [("k", jStr "bin"), ("op", jStr op), ("x", jExpr x), ("y", jExpr y)]
+  | .isNull x n => jObj [("k", jStr "isnull"), ("x", jExpr x), ("neg", jBool n)]
+  | .inList x vs => jObj [("k", jStr "in"), ("x", jExpr x), ("vals", jArr (jExprs vs))]
+  | .index x i => jObj [("k", jStr "index"), ("x", jExpr x), ("i", jExpr i)]
+  | .none_ => "null"
+def jExprs : SExprList → List String
+  | .nil => []
+  | .cons e es => jExpr e :: jExprs es
+end
+
+def jRef : TableRef → String
+  | .named n a => jObj [("k", jStr "named"), ("name", jHex n), ("alias", jOpt jHex a)]
+  | .distinctOf n a => jObj [("k", jStr "distinct"), ("name", jHex n), ("alias", jOpt jHex a)]
+
+def jSelect (s : Select) : String :=
+  jObj [("distinct", jBool s.distinct),
+    ("items", jArr (s.items.map fun it => jObj [("star", jBool it.star), ("expr", jExpr it.expr), ("alias", jOpt jHex it.alias)])),
+    ("source", jRef s.source),
+    ("join", jOpt (fun (j : JoinClause) => jObj [("left", jBool j.left), ("table", jRef j.table), ("on", jExpr j.on)]) s.join),
+    ("where", jOpt jExpr s.where_),
+    ("groupBy", jArr (s.groupBy.map jExpr)),
+    ("orderBy", jArr (s.orderBy.map fun o => jObj [("expr", jExpr o.expr), ("asc", jBool o.asc), ("nullsFirst", jBool o.nullsFirst)])),
+    ("limit", jOpt jExpr s.limit)]
+
+/-- the item an unqualified name in ORDER BY stands for: `evalSelect` looks a name up among the
+    output columns first (in order), then in the source row -/
+def provider (items : List SelectItem) (srcCols : List Bytes) (n : Bytes) : Option SExpr :=
+  match items with
+  | [] => none
+  | it :: rest =>
+    if it.star then (if srcCols.contains n then none else provider rest srcCols n)
+    else if it.alias == some n then some it.expr
+    else provider rest srcCols n
+
+mutual
+def substAlias (items : List SelectItem) (srcCols : List Bytes) : SExpr → SExpr
+  | .col [n] => match provider items srcCols n with | some e => e | none => .col [n]
+  | .call fn star args filter => .call fn star (substAliasL items srcCols args) (substAlias items srcCols filter)
+  | .case_ c t e => .case_ (substAlias items srcCols c) (substAlias items srcCols t) (substAlias items srcCols e)
+  | .neg x => .neg (substAlias items srcCols x)
+  | .pos x => .pos (substAlias items srcCols x)
+  | .not_ x => .not_ (substAlias items srcCols x)
+  | .bin op x y => .bin op (substAlias items srcCols x) (substAlias items srcCols y)
+  | .isNull x n => .isNull (substAlias items srcCols x) n
+  | .inList x vs => .inList (substAlias items srcCols x) (substAliasL items srcCols vs)
+  | .index x i => .index (substAlias items srcCols x) (substAlias items srcCols i)
+  | e => e
+def substAliasL (items : List SelectItem) (srcCols : List Bytes) : SExprList → SExprList
+  | .nil => .nil
+  | .cons e es => .cons (substAlias items srcCols e) (substAliasL items srcCols es)
+end
+
+/-- do the ORDER BY keys of `s` order its rows totally (up to rows that are equal as output
+    rows)?  `none`: not decided here (an aggregate only in ORDER BY) -/
+def orderTotal (db : DB) (ctes : List (Bytes × Table)) (s : Select) (nOut : Nat) : Option Bool :=
+  let srcCols := (evalSelect db ctes { s with items := [⟨true, .none_, none⟩], where_ := none, groupBy := [], orderBy := [], limit := none }).cols
+  let keys := s.orderBy.map fun o => substAlias s.items srcCols o.expr
+  let isAgg := !s.groupBy.isEmpty || s.items.any fun it => !it.star && hasAgg it.expr
+  if !isAgg && keys.any hasAgg then none else
+  let keyed := evalSelect db ctes { s with items := s.items ++ keys.map (fun e => ⟨false, e, some (Bytes.ofString "__key")⟩), orderBy := [], limit := none }
+  let dirs := s.orderBy.map fun o => (o.asc, o.nullsFirst)
+  let rows := keyed.rows.map fun r => (r.take nOut, r.drop nOut)
+  let rec go : List (List Val × List Val) → Bool
+    | [] => true
+    | x :: rest => rest.all (fun y => x.1 == y.1 || keysLt dirs x.2 y.2 || keysLt dirs y.2 x.2) && go rest
+  some (go rows)
+
+def jSelectInfo (db : DB) (ctes : List (Bytes × Table)) (name : Bytes) (s : Select) (t : Table) : String :=
+  let lim : List (String × String) :=
+    match s.limit with
+    | none => [("limit", "null")]
+    | some l =>
+      [("limit", jObj [("value", jVal (evalS [] [] l)), ("n", jOpt toString (limitOf (evalS [] [] l))),
+         ("rowsBefore", toString (evalSelect db ctes { s with limit := none }).rows.length)])]
+  let ord : List (String × String) :=
+    if s.orderBy.isEmpty then [("order", "null")]
+    else [("order", jObj [("total", jOpt jBool (orderTotal db ctes s t.cols.length))])]
+  jObj ([("name", jHex name)] ++ jTable t ++ lim ++ ord)
+
+def dump (sql : Bytes) (seed : Nat) : String :=
+  let db := Rel.mkDB seed
+  let jdb := jArr (db.map fun (n, t) => jObj (("name", jHex n) :: jTable t))
+  match CompileOracle.readSql sql with
+  | none => jObj [("readable", "false"), ("seed", toString seed), ("db", jdb)]
+  | some st =>
+    -- the CTE tables exactly as `evalStatement` builds them
+    let step (acc : List (Bytes × Table) × List String) (c : Bytes × Select) : List (Bytes × Table) × List String :=
+      let t := evalSelect db acc.1 c.2
+      (acc.1 ++ [(c.1, t)], acc.2 ++ [jSelectInfo db acc.1 c.1 c.2 t])
+    let (ctes, infos) := st.ctes.foldl step ([], [])
+    let res := evalStatement db st
+    jObj [("readable", "true"), ("seed", toString seed), ("db", jdb),
+      ("stmt", jObj [("ctes", jArr (st.ctes.map fun (n, s) => jObj [("name", jHex n), ("select", jSelect s)])), ("body", jSelect st.body)]),
+      ("selects", jArr (infos ++ [jSelectInfo db ctes [] st.body res])),
+      ("result", jObj (jTable res))]
+
+end SqlDump
+
 def processLine (line : String) : String :=
   match line.splitOn " | " with
   | [lhs, impl] =>
     match lhs.splitOn " " with
+    | ["SQLDUMP", h, seed] =>
+      -- not a comparison: prints the reference reading of the SQL text on the seed's database
+      match Bytes.ofHex h, seed.toNat? with
+      | some sql, some sd => "DUMP " ++ SqlDump.dump sql sd
+      | _, _ => "BADCASE"
     | op :: fields =>
       match runOp op fields impl with
       | some v =>
